@@ -312,7 +312,7 @@ def body_arr(c):
     for r in range(1, c['repeats'] + 1):
         sol = reg.arr(x, y, phi, g, repeats=r, rcond=1e-13, progress=False)
         require(isinstance(sol, list) and len(sol) == c['dy'], 'arr_outputs', '%d solutions for %d output rows' % (len(sol), c['dy']))
-        build.require_unchanged(g, snap, 'initial guess of arr')
+        build.require_unchanged(g, snap, 'initial guess of arr', strict=True)
         res = residuals(sol)
         for k in range(c['dy']):
             # resolution of the harness' own residual evaluation: Xi^T Psi - y in floating point is only accurate to about
